@@ -49,7 +49,7 @@ class FullStyle(Style):
     mode = "full"
 
 
-WS_CHARS = [" ", "\t", "\n", "  ", " \t", "\n ", "\r\n", " \n\t "]
+WS_CHARS = [" ", "\t", "\n", "  ", " \t", "\n ", "\r\n", " \n\t ", " " * 40, "\t" * 33 + "\n" * 70]
 
 
 class RandomStyle(Style):
